@@ -227,7 +227,9 @@ class Wallet:
                 if not account.decrypt(password):
                     return False
                 unlocked.append(account)
-        self.encryption_password = password
+        if unlocked:
+            # only a password that actually decrypted something may become the encryption password
+            self.encryption_password = password
         for account in unlocked:
             await account.deterministic_channel_keys.ensure_cache_primed()
         return True
